@@ -12,6 +12,11 @@ pub fn slot_vec(r: &mut Rng, n: usize, t: u64, kind: u64) -> Vec<u64> {
         1 => vec![0; n],
         2 => { let l = r.range(1, n as u64) as usize; (0..l).map(|_| r.below(t)).collect() }   // short input: zero padded
         3 => (0..n).map(|i| (i as u64) % t).collect(),
+        // structured vectors: their encodings have exact structural zeros (all odd coefficients, or all but every fourth), the inputs on which
+        // lazy-range slips of the transforms show: stride masks, rows periodic with period N/4 and a zero first column, sparse vectors
+        5 => (0..n).map(|i| (i % 2) as u64 * (1 + r.below(t - 1)).min(t - 1)).collect(),
+        6 => { let row = (n / 2).max(1); let per = (row / 2).max(1); let base: Vec<u64> = (0..2 * per).map(|j| if j % per == 0 { 0 } else { r.below(t) }).collect(); (0..n).map(|i| base[(i / row) * per + (i % row) % per]).collect() }
+        7 => { let mut v = vec![0u64; n]; for _ in 0..2 { let i = r.below(n as u64) as usize; v[i] = r.below(t); } v }
         _ => (0..n).map(|_| r.below(t)).collect(),
     }
 }
@@ -43,7 +48,7 @@ pub fn run(out: &mut Out, thorough: bool, seed: u64, _extra: &[String]) {
                 let mut v = vec![0u64; n]; v[u] = 1 + r.below(t - 1);
                 out.case(&format!("batch_encode {} {} {}", k, t, fl(&v)), &format!("unit-{}", cls), || { let p = enc.encode_new(&v); fl(p.data()) });
             }
-            for kind in 0..5u64 {
+            for kind in 0..8u64 {
                 let v = slot_vec(&mut r, n, t, kind);
                 let p = enc.encode_new(&v);
                 out.case(&format!("batch_encode {} {} {}", k, t, fl(&v)), &format!("vec{}-{}", kind, cls), || fl(p.data()));
@@ -68,6 +73,7 @@ pub fn run(out: &mut Out, thorough: bool, seed: u64, _extra: &[String]) {
                 }
                 // decode of arbitrary plaintext polynomials (short ones included)
                 let pl = slot_vec(&mut r, n, t, kind);
+                let pl: Vec<u64> = match kind { 5 => pl.iter().enumerate().map(|(i, &x)| if i % 2 == 1 { 0 } else { x }).collect(), 6 => pl.iter().enumerate().map(|(i, &x)| if i % 4 != 0 { 0 } else { x }).collect(), _ => pl };
                 let mut pp = Plaintext::new(); pp.resize(pl.len()); pp.data_mut().copy_from_slice(&pl);
                 out.case(&format!("batch_decode {} {} {}", k, t, fl(&pl)), &format!("dec{}-{}", kind, cls), || fl(&enc.decode_new(&pp)));
                 // ring isomorphism: sums and negacyclic products of encodings decode to slot-wise sums and products
